@@ -53,3 +53,6 @@ def run(ctx, config='rel-all'):
     ctx.floor('R1', nfun, 60, 'functions in scope that may run user code')
     ctx.floor('R1.sites', nsites, 100, 'user-call sites replayed')
     ctx.floor('R1.guards', len([g for g in guards if g]), 4, 'guard types (Drop restores a Vec length)')
+    # ---- R2: the drain_filter guard computes its length from fields that obey std's formulas
+    from . import drainfilter
+    drainfilter.check(ctx, config, 'R2')
